@@ -74,6 +74,10 @@ P_ver(o) == [o EXCEPT !.ver = Flip(o.ver, "4", "6")]
 P_pc(o) == [o EXCEPT !.pclass = Flip(o.pclass, "0", "+")]
 P_lay(o) == [o EXCEPT !.olayout = Append(o.olayout, O("nop"))]
 P_q(o) == [o EXCEPT !.quirks = IF Len(o.quirks) = 0 THEN <<"df">> ELSE Tail(o.quirks)]
+\* the same NUMBER of quirks, one of them twice in place of another (the analyzer does emit `ecn` twice: IP-level and TCP-level), and
+\* the same quirks in reverse order (lists are compared as written)
+P_qdup(o) == [o EXCEPT !.quirks = IF Len(o.quirks) < 2 THEN <<"ecn", "ecn">> ELSE [i \in 1..Len(o.quirks) |-> IF i = Len(o.quirks) THEN o.quirks[1] ELSE o.quirks[i]]]
+P_qrev(o) == [o EXCEPT !.quirks = IF Len(o.quirks) < 2 THEN <<"df", "id+">> ELSE [i \in 1..Len(o.quirks) |-> o.quirks[Len(o.quirks) + 1 - i]]]
 
 \* the same window written as a raw value: that multiple of the observation's own MSS (an instance of mss*n in another form), alone and
 \* together with another MSS than the one the signature may pin (the multiple is relative to the OBSERVED MSS)
@@ -81,7 +85,7 @@ RawWin(o, m) == IF o.wsize.k = "mss" /\ m > 0 /\ o.wsize.n * m <= 65535 THEN [o 
 P_raw(o) == RawWin(o, o.mss)
 P_rawmss(o) == RawWin(o, IF o.mss = 1337 THEN 1338 ELSE 1337)
 P_rawsmall(o) == RawWin(o, 64)
-Perturbed(b) == <<P_raw(b), P_rawmss(b), P_rawsmall(b), P_olen(b), P_mss(b), P_sc(b), P_win(b), P_ttl(b), P_ver(b), P_pc(b), P_lay(b), P_q(b),
+Perturbed(b) == <<P_raw(b), P_rawmss(b), P_rawsmall(b), P_olen(b), P_mss(b), P_sc(b), P_win(b), P_ttl(b), P_ver(b), P_pc(b), P_lay(b), P_q(b), P_qdup(b), P_qrev(b),
                   P_olen(P_mss(b)), P_olen(P_sc(b)), P_ttl(P_olen(b)), P_olen(P_mss(P_sc(b))), P_win(P_ttl(P_mss(b))),
                   P_ver(P_olen(b)), P_q(P_mss(b))>>
 
